@@ -517,7 +517,7 @@ def run(ctx):
     H2 = C07.CloseHooks()
     for init in (0, 1):
         H2.fn = 'qmail_close'
-        e = Eng(db, prog, H2)
+        e = Eng(db, prog, H2, max_states=4000000)
         fid = e.frame_id(qc)
         e.run(qc, {'%s::%s' % (fid, qc.params[0]): fs(('&', 'OBJ')), 'OBJ.flagerr': fs(init), 'OBJ.pid': fs('PID'), '$bind': fs('fde'), '$init': fs(init)})
         rep.count_states(e.states, e.transitions)
